@@ -71,6 +71,10 @@ type HOp struct {
 	Verifier string   `json:"verifier,omitempty"`
 	Smuggled []string `json:"smuggled,omitempty"`
 	Hint     string   `json:"hint,omitempty"` // access_token | refresh_token | other
+	// password grant
+	CredsOK bool `json:"creds_ok,omitempty"`
+	// introspection endpoint: caller = client (Auth) or bearer token
+	Bearer *HTok `json:"bearer,omitempty"`
 	// advance
 	Ms int64 `json:"ms,omitempty"`
 	// setclient
@@ -201,6 +205,7 @@ func newWorld(t *testing.T, h *HHistory) *world {
 		w.clients = append(w.clients, dc)
 		w.store.Clients[dc.ID] = dc
 	}
+	w.store.Users["peter"] = storage.MemoryUserRelation{Username: "peter", Password: "secret"}
 	w.prov = compose.ComposeAllEnabled(w.conf, w.store, theKey())
 	return w
 }
@@ -253,6 +258,13 @@ func (w *world) token(t HTok, kind string) string {
 		tok = string(b)
 	}
 	return tok
+}
+
+func (w *world) kindOf(t HTok) string {
+	if t.Ref >= 0 && t.Ref < len(w.issued) && w.issued[t.Ref].kind == "refresh" {
+		return "rt"
+	}
+	return "at"
 }
 
 func (w *world) authForm(req *http.Request, form url.Values, auth int) {
@@ -371,6 +383,85 @@ func (w *world) exec(op *HOp) HObs {
 		if sc, ok := resp.GetExtra("scope").(string); ok && sc != "" {
 			o.Scopes = strings.Split(sc, " ")
 		}
+	case "password", "clientcreds":
+		form := url.Values{}
+		if op.Kind == "password" {
+			form.Set("grant_type", "password")
+			form.Set("username", "peter")
+			if op.CredsOK {
+				form.Set("password", "secret")
+			} else {
+				form.Set("password", "wrong")
+			}
+		} else {
+			form.Set("grant_type", "client_credentials")
+		}
+		if len(op.Scopes) > 0 {
+			form.Set("scope", strings.Join(op.Scopes, " "))
+		}
+		if len(op.Aud) > 0 {
+			form.Set("audience", strings.Join(op.Aud, " "))
+		}
+		req := w.postReq("/token", form, op.Auth)
+		ar, err := w.prov.NewAccessRequest(ctx, req, &fosite.DefaultSession{})
+		if err != nil {
+			o.Err = errName(err)
+			return o
+		}
+		for _, s := range op.Granted {
+			ar.GrantScope(s)
+		}
+		for _, a := range op.GAud {
+			ar.GrantAudience(a)
+		}
+		resp, err := w.prov.NewAccessResponse(ctx, ar)
+		if err != nil {
+			o.Err = errName(err)
+			return o
+		}
+		if at := resp.GetAccessToken(); at != "" {
+			w.issued = append(w.issued, issuedTok{"access", at})
+			o.Minted = append(o.Minted, "access")
+		}
+		if rt, ok := resp.GetExtra("refresh_token").(string); ok && rt != "" {
+			w.issued = append(w.issued, issuedTok{"refresh", rt})
+			o.Minted = append(o.Minted, "refresh")
+		}
+		if ei, ok := resp.GetExtra("expires_in").(int64); ok {
+			o.ExpiresIn = ei
+		}
+		if sc, ok := resp.GetExtra("scope").(string); ok && sc != "" {
+			o.Scopes = strings.Split(sc, " ")
+		}
+	case "introspect_ep":
+		form := url.Values{}
+		form.Set("token", w.token(op.Tok, w.kindOf(op.Tok)))
+		switch op.Hint {
+		case "access_token", "refresh_token":
+			form.Set("token_type_hint", op.Hint)
+		case "other":
+			form.Set("token_type_hint", "garbage")
+		}
+		if len(op.Scopes) > 0 {
+			form.Set("scope", strings.Join(op.Scopes, " "))
+		}
+		var req *http.Request
+		if op.Bearer != nil {
+			req = httptest.NewRequest("POST", "/introspect", strings.NewReader(form.Encode()))
+			req.Header.Set("Content-Type", "application/x-www-form-urlencoded")
+			req.Header.Set("Authorization", "Bearer "+w.token(*op.Bearer, w.kindOf(*op.Bearer)))
+		} else {
+			// the introspection endpoint only accepts Basic credentials for clients
+			req = httptest.NewRequest("POST", "/introspect", strings.NewReader(form.Encode()))
+			req.Header.Set("Content-Type", "application/x-www-form-urlencoded")
+			if op.Auth < 0 {
+				req.SetBasicAuth("no-such-client", "wrong-secret")
+			} else {
+				req.SetBasicAuth(url.QueryEscape(clientID(op.Auth)), url.QueryEscape(clientSecret(op.Auth)))
+			}
+		}
+		_, err := w.prov.NewIntrospectionRequest(ctx, req, &fosite.DefaultSession{})
+		o.Err = errName(err)
 	case "revoke":
 		form := url.Values{}
 		kind := "at"
@@ -432,7 +523,7 @@ func (w *world) probe() []*HPayload {
 		if err != nil {
 			continue
 		}
-		p := &HPayload{Use: string(tu), Client: clientIndex(ar.GetClient().GetID()), Subject: ar.GetSession().GetSubject(),
+		p := &HPayload{Use: string(tu), Client: clientIndex(ar.GetClient().GetID()), Subject: normSubject(ar.GetSession().GetSubject()),
 			Scopes: append([]string{}, ar.GetGrantedScopes()...), Aud: append([]string{}, ar.GetGrantedAudience()...)}
 		if tu == fosite.RefreshToken {
 			tt = fosite.RefreshToken
@@ -446,6 +537,14 @@ func (w *world) probe() []*HPayload {
 		out[i] = p
 	}
 	return out
+}
+
+// the reference user store answers a random UUID as the subject of a password grant
+func normSubject(s string) string {
+	if len(s) == 36 && s[8] == '-' && s[13] == '-' && s[18] == '-' && s[23] == '-' {
+		return "uuid"
+	}
+	return s
 }
 
 // runHistory executes h inside a synctest bubble and returns one observation per op.
@@ -522,6 +621,16 @@ func coqOp(op *HOp) string {
 		return fmt.Sprintf("ORevoke %s %s %s", coqAuth(op.Auth), coqTok(op.Tok), coqHint(op.Hint))
 	case "introspect":
 		return fmt.Sprintf("OIntrospect %s %s %s", coqTok(op.Tok), coqHint(op.Hint), QL(op.Scopes))
+	case "password":
+		return fmt.Sprintf("OPassword %s %s %s %s %s %s", coqAuth(op.Auth), B(op.CredsOK), QL(op.Scopes), coqAurls(op.Aud), QL(op.Granted), coqAurls(op.GAud))
+	case "clientcreds":
+		return fmt.Sprintf("OClientCreds %s %s %s %s %s", coqAuth(op.Auth), QL(op.Scopes), coqAurls(op.Aud), QL(op.Granted), coqAurls(op.GAud))
+	case "introspect_ep":
+		cal := "(CallerClient " + coqAuth(op.Auth) + ")"
+		if op.Bearer != nil {
+			cal = "(CallerBearer " + coqTok(*op.Bearer) + ")"
+		}
+		return fmt.Sprintf("OIntrospectEP %s %s %s %s", cal, coqTok(op.Tok), coqHint(op.Hint), QL(op.Scopes))
 	case "advance":
 		return fmt.Sprintf("OAdvance %s", Z(op.Ms))
 	case "setclient":
